@@ -8,7 +8,8 @@ Tolerances (stated once; calibrated on the unchanged tree, see notes/C11.md):
                                                                         unnormalised kets in the stochastic branch)
   density matrix hermiticity           max|rho - rho^+|      <= 1e-9   (observed <= 2e-15)
   density matrix positivity            min eigenvalue        >= -1e-5  (observed >= -2.3e-7)
-  Rabi populations (interior times)    |p - sin^2(Om t / 2)| <= 5e-3
+  Rabi populations (interior times)    |p - sin^2(Om t / 2)| <= 1e-3   (observed <= 2.3e-5; after an idle period,
+                                                                        final time: max(1e-3, 1.2e-3*Om), observed ratio <= 0.07)
   zero drive                           max|psi_t - psi_0|    <= 1e-9
   legacy vs V2 states                  max|rho_l - rho_v|    <= 2e-3   (observed <= 2e-4)
   distributions                        |p - q|               <= 1e-9
@@ -29,7 +30,7 @@ TOL_NORM = 1e-3
 TOL_TRACE = 1e-9
 TOL_HERM = 1e-9
 TOL_POS = 1e-5
-TOL_RABI = 5e-3
+TOL_RABI = 1e-3
 TOL_ZERO = 1e-9
 TOL_STATE = 2e-3
 TOL_DIST = 1e-9
@@ -37,10 +38,9 @@ TOL_DIST = 1e-9
 INFER = {frozenset("rg"): "r", frozenset("gh"): "h", frozenset("ud"): "d"}
 
 LEGIT_LEGACY_REJECTIONS = (
+    # the only rejection a generated emulation case may legitimately meet:
+    # fewer than 4 Hamiltonian samples at the chosen sampling rate
     "`sampling_rate` is too small",
-    "evaluation_times float must be between 0 and 1",
-    "Provided evaluation-time list extends",
-    "Provided evaluation-time list contains negative",
 )
 
 
@@ -483,6 +483,32 @@ def run_weights(case):
                 bad("sample-count", f"get_samples returned {sum(cnt.values())} shots for {N}")
             if not set(cnt) <= set(got):
                 bad("sample-outside-support", f"sampled {sorted(set(cnt) - set(got))} has zero probability")
+
+    # ---- multinomial with chosen draws: interior points and the boundaries
+    # (a draw equal to a cumulative sum belongs to the interval it closes)
+    if st == "ok":
+        from unittest import mock
+
+        from pulser.math.multinomial import multinomial
+
+        wf = np.array(w, dtype=float)
+        cs = np.cumsum(wf)
+        us = []
+        for i, c in enumerate(cs[:-1]):
+            us += [float(c), float(np.nextafter(c, 2.0)), float(np.nextafter(c, -1.0))]
+        us += [0.0, float(cs[-1]), float(cs[-1]) / 2, float(cs[0]) / 2]
+        # np.random.rand draws from [0, 1); a draw above the last cumulative sum
+        # (possible only when the weights sum to less than 1 by rounding) is
+        # outside the stated intervals and is not generated
+        us = [u for u in us if 0.0 <= u < 1.0 and u <= float(cs[-1])][:64]
+        with mock.patch("numpy.random.rand", lambda k: np.array(us[:k])):
+            idx = [int(x) for x in multinomial(len(us), wf)]
+        checks.append(dict(c="multinomial", probs=list(wf), us=us, impl=idx))
+        for u, i in zip(us, idx):
+            lo = cs[i - 1] if i > 0 else -1.0
+            if not (i < len(cs) and lo < u <= cs[i]):
+                bad("multinomial-interval", f"draw {u!r} selected index {i}, whose interval is ({lo!r}, {cs[min(i, len(cs) - 1)]!r}]")
+                break
 
     # ---- V2 state API on the same state
     basis_for = {
